@@ -41,6 +41,10 @@ def sqa_type(dtype: str):
         "int16": sqa.SmallInteger,
         "int32": sqa.Integer,
         "int64": sqa.BigInteger,
+        "uint8": sqa.SmallInteger,
+        "uint16": sqa.Integer,
+        "uint32": sqa.BigInteger,
+        "uint64": sqa.BigInteger,
         "float": sqa.Double,
         "float64": sqa.Double,
         "float32": sqa.Float,
